@@ -96,6 +96,59 @@ pub open spec fn resolve_regions_spec(reg: &TypeRegistry, p: ItemPath, regions: 
     exists|vr: Option<Region>| #![trigger vftable_result_ok(reg, p, first_base_of(regions), own, (vft, vr))]
         vftable_result_ok(reg, p, first_base_of(regions), own, (vft, vr)) && regions_spec(regions, vr, target, out, size, reg)
 }
+/// parameter k of a vftable slot's function-pointer type: the receiver becomes `this: *const/*mut T`, a named
+/// argument keeps name and type
+pub open spec fn slot_param_ok(p: ItemPath, a: Argument, q: (String, Box<Type>)) -> bool {
+    match a {
+        Argument::ConstSelf => q.0@ == "this"@ && *q.1 == Type::ConstPointer(Box::new(Type::Raw(p))),
+        Argument::MutSelf => q.0@ == "this"@ && *q.1 == Type::MutPointer(Box::new(Type::Raw(p))),
+        Argument::Field(n, t) => q.0 == n && *q.1 == t,
+    }
+}
+/// region k of the generated vftable struct is slot k: same name, visibility, doc and calling convention as
+/// the function, a function-pointer type with the parameters in order and the return type (C04 C16 C17)
+pub open spec fn slot_region_ok(p: ItemPath, f: Function, r: Region) -> bool {
+    &&& r.visibility == f.visibility
+    &&& r.name == Some(f.name)
+    &&& r.doc == f.doc
+    &&& !r.is_base
+    &&& r.type_ref is Function
+    &&& r.type_ref->Function_0 == f.calling_convention
+    &&& r.type_ref->Function_1@.len() == f.arguments@.len()
+    &&& (forall|i: int| 0 <= i < f.arguments@.len() ==> slot_param_ok(p, f.arguments@[i], #[trigger] r.type_ref->Function_1@[i]))
+    &&& (match f.return_type { Some(t) => r.type_ref->Function_2 is Some && *r.type_ref->Function_2->0 == t, None => r.type_ref->Function_2 is None })
+}
+/// the generated `<T>Vftable` item (C02: size = slots x pointer size, alignment = pointer size; C14: path)
+pub open spec fn vftable_item_ok(reg: &TypeRegistry, p: ItemPath, visibility: Visibility, fns: Seq<Function>, item: ItemDefinition) -> bool {
+    &&& item.path == vft_path(p)->0
+    &&& item.visibility == visibility
+    &&& item.category == ItemCategory::Defined
+    &&& item.state is Resolved
+    &&& item.state->Resolved_0.alignment == reg.pointer_size
+    &&& (fns.len() * reg.pointer_size <= usize::MAX ==> item.state->Resolved_0.size == fns.len() * reg.pointer_size)
+    &&& item.state->Resolved_0.inner is Type
+    &&& ({ let td = item.state->Resolved_0.inner->Type_0;
+           &&& td.regions@.len() == fns.len()
+           &&& (forall|i: int| 0 <= i < fns.len() ==> slot_region_ok(p, fns[i], #[trigger] td.regions@[i]))
+           &&& td.doc is None && td.associated_functions@.len() == 0 && td.vftable is None && td.singleton is None
+           &&& !td.cloneable && !td.copyable && !td.defaultable && !td.packed })
+}
+pub open spec fn seq_sum(s: Seq<usize>) -> nat
+    decreases s.len()
+{
+    if s.len() == 0 { 0 } else { seq_sum(s.drop_last()) + s.last() as nat }
+}
+pub proof fn lemma_seq_sum_const(s: Seq<usize>, c: usize)
+    requires forall|i: int| 0 <= i < s.len() ==> s[i] == c
+    ensures seq_sum(s) == s.len() * c
+    decreases s.len()
+{
+    if s.len() > 0 {
+        lemma_seq_sum_const(s.drop_last(), c);
+        assert(seq_sum(s) == seq_sum(s.drop_last()) + c);
+        assert((s.len() - 1) * c + c == s.len() * c) by (nonlinear_arith);
+    }
+}
 /// frame of a resolution attempt on the registry: nothing but the generated vftable item of `p` changes
 pub open spec fn registry_frame(old_reg: &TypeRegistry, new_reg: &TypeRegistry, p: ItemPath) -> bool {
     &&& new_reg.pointer_size == old_reg.pointer_size
